@@ -300,7 +300,8 @@ def check_C06(tier, seed):
 
 
 def check_C08(tier, seed):
-    return codec_family("C08", tier, seed, "check", exact=False,
+    # (module 5: the constraint expression trees: unions with gaps, intersections, exceptions, serial application, chains)
+    return codec_family("C08", tier, seed, "check", exact=False, modules=(1, 2, 3, 5),
                         rule="for every (type, valid value) of the universe: the value itself and every value derived from it by violating exactly one value / SIZE / alphabet constraint at one position (every bound, both sides; first and last character; every element and component position; spec/Values.tla Corruptions); asn_check_constraints must return 0 iff Valid (Asn1Types.tla) and, on failure, a terminated message within every buffer size tried (0,1,2,16,L-1,L,L+1,L+2,256) that names a type")
 
 
